@@ -301,8 +301,37 @@ def unit_dqn(S):
 
 
 def unit_sac_targets(S):
+    # "exactly once per iteration" for every num_envs / num_steps: Python-level `range(num_steps)`-style repetition is enumerated (1 and 3 steps, 1 and 2 environments)
+    for ne, ns in ((1, 1), (2, 3)):
+        _sac_targets(S, ne, ns)
+
+
+def native_polyak_replay(ne, ns):
+    """R1: the real SAC.per_iteration on real SoftQNetworks: targets' = tau*online + (1-tau)*targets, exactly one Polyak step."""
+    def replay(model):
+        from contracts import _native as N
+        fx = N.sac_fixture(num_steps=ns)
+        from lerax.algorithm.sac import SACState
+        algo = eqx.tree_at(lambda a: a.num_envs, fx["algo"], ne)
+        st = SACState(jnp.asarray(0), None, fx["env"], fx["policy"], fx["opt_state"], None, qf1=fx["qf1"], qf2=fx["qf2"], qf1_target=fx["qf1_target"], qf2_target=fx["qf2_target"],
+                      q_opt_state=fx["q_opt_state"], log_alpha=fx["log_alpha"], alpha_opt_state=fx["alpha_opt_state"], target_entropy=fx["target_entropy"])
+        out = algo.per_iteration(st)
+        tau = float(algo.tau)
+        worst = 0.0
+        for new, on, old in ((out.qf1_target, st.qf1, st.qf1_target), (out.qf2_target, st.qf2, st.qf2_target)):
+            for a, b, c_ in zip(jax.tree.leaves(eqx.filter(new, eqx.is_inexact_array)), jax.tree.leaves(eqx.filter(on, eqx.is_inexact_array)), jax.tree.leaves(eqx.filter(old, eqx.is_inexact_array))):
+                worst = max(worst, float(jnp.max(jnp.abs(a - (tau * b + (1 - tau) * c_)))))
+        if worst > 1e-6:
+            return dict(reproduced=True, route="R1 (real SAC.per_iteration, real SoftQNetworks)", inputs=dict(num_envs=ne, num_steps=ns, tau=tau), observed=dict(max_abs_deviation_from_one_polyak_step=worst))
+        return dict(reproduced=False, note="targets moved by exactly one Polyak step")
+    return replay
+
+
+def _sac_targets(S, ne, ns):
     fn = "lerax.algorithm.sac:_soft_update_targets"
     S.under_contract(fn, "lerax.algorithm.sac:SAC.per_iteration")
+    T_ = f"[num_envs={ne},num_steps={ns}]"
+    rp = native_polyak_replay(ne, ns)
     from lerax.algorithm.sac import SACState, SoftQNetwork, _soft_update_targets
     ctx = Ctx()
     mkq = lambda k: SoftQNetwork(2, 2, width_size=2, depth=1, key=jax.random.key(k))
@@ -320,17 +349,18 @@ def unit_sac_targets(S):
         return SACState(b.iteration_count, b.step_state, b.env, b.policy, b.opt_state, b.callback_state, qf1=a, qf2=c, qf1_target=d, qf2_target=e, q_opt_state=qo_,
                         log_alpha=la_, alpha_opt_state=ao_, target_entropy=te_)
     st = mk(base, q1, q2, q1t, q2t, qo, la, ao, te)
-    algo = eqx.tree_at(lambda a: a.tau, SAC(num_envs=1, buffer_size=8, learning_starts=1, batch_size=1), tau)
-    out = run(ctx, lambda a, s: a.per_iteration(s), algo, st)
+    algo = eqx.tree_at(lambda a: a.tau, SAC(num_envs=1, num_steps=ns, buffer_size=8, learning_starts=1, batch_size=1), tau)
+    algo_pi = eqx.tree_at(lambda a: a.num_envs, algo, ne)
+    out = run(ctx, lambda a, s: a.per_iteration(s), algo_pi, st)
     conj = []
     for new, on, old in ((out.qf1_target, q1, q1t), (out.qf2_target, q2, q2t)):
         for ln, lo, lt in zip(kit.leaves(new), kit.leaves(on), kit.leaves(old)):
             for ix in ln.indices():
                 conj.append(ir.seq(ln.at(ix), tauc * ir.zreal(lo.at(ix)) + (1 - tauc) * ir.zreal(lt.at(ix))))
-    S.prove("soft-update/polyak", ctx, sand(*conj), function=fn, what="every target-critic parameter: theta' = tau*theta + (1-tau)*theta' (both critics, every leaf)")
+    S.prove("soft-update/polyak" + T_, ctx, sand(*conj), function=fn, replay=rp, what="every target-critic parameter: theta' = tau*theta + (1-tau)*theta' (both critics, every leaf)")
     frame = sand(kit.tree_eq(out.qf1, q1), kit.tree_eq(out.qf2, q2), kit.tree_eq(out.policy, st.policy), ir.seq(out.log_alpha.scalar(), la.scalar()),
                  kit.tree_eq(out.q_opt_state, qo), kit.tree_eq(out.step_state, st.step_state), ir.seq(out.iteration_count.scalar(), st.iteration_count.scalar()))
-    S.prove("soft-update/frame", ctx, frame, function=fn, what="frame: online critics, policy, temperature, optimiser states, counter unchanged")
+    S.prove("soft-update/frame" + T_, ctx, frame, function=fn, what="frame: online critics, policy, temperature, optimiser states, counter unchanged")
     # SAC.iteration applies per_iteration exactly once, after sac_train; targets are not touched by sac_train (not among its outputs)
     import inspect
     sig = inspect.signature(SAC.sac_train)
@@ -361,14 +391,14 @@ def unit_sac_targets(S):
     k2, _ = kit.key_input("key")
     with extract.patched((SAC, "per_iteration", counting), (SAC, "sac_train", train_stub), (AbstractOffPolicyAlgorithm, "collect_rollout", collect_stub)):
         out2 = run(ctx2, lambda a, s, kk: a.iteration(s, key=kk, callback=SimpleCallback()), algo, st2, k2)
-    S.fact("SAC.iteration/soft-update-exactly-once", calls["n"] == 1, function="lerax.algorithm.sac:SAC.iteration", what="per_iteration (the soft target update) is applied exactly once per iteration", detail=calls["n"])
-    S.prove("SAC.iteration/counter-advances-by-one", ctx2, ir.seq(out2.iteration_count.scalar(), st2.iteration_count.scalar() + 1), function="lerax.algorithm.sac:SAC.iteration", what="the iteration counter advances by exactly one")
+    S.fact("SAC.iteration/soft-update-exactly-once" + T_, calls["n"] == 1, function="lerax.algorithm.sac:SAC.iteration", what="per_iteration (the soft target update) is applied exactly once per iteration", detail=calls["n"])
+    S.prove("SAC.iteration/counter-advances-by-one" + T_, ctx2, ir.seq(out2.iteration_count.scalar(), st2.iteration_count.scalar() + 1), function="lerax.algorithm.sac:SAC.iteration", what="the iteration counter advances by exactly one")
     conj2 = []
     for new, on, old in ((out2.qf1_target, st2.qf1, st2.qf1_target), (out2.qf2_target, st2.qf2, st2.qf2_target)):
         for ln, lo, lt in zip(kit.leaves(new), kit.leaves(on), kit.leaves(old)):
             for ix in ln.indices():
                 conj2.append(ir.seq(ln.at(ix), tauc * ir.zreal(lo.at(ix)) + (1 - tauc) * ir.zreal(lt.at(ix))))
-    S.prove("SAC.iteration/targets-follow-polyak-once", ctx2, sand(*conj2), function="lerax.algorithm.sac:SAC.iteration",
+    S.prove("SAC.iteration/targets-follow-polyak-once" + T_, ctx2, sand(*conj2), function="lerax.algorithm.sac:SAC.iteration", replay=rp,
             what="with training abstracted to the identity, one iteration moves the targets by exactly one Polyak step towards the (new) online critics")
 
 
